@@ -176,7 +176,7 @@ namespace JS
 
 theorem scopeClosed (env : Env) : Closed env ScopeOK where
   emit := scopeOK_emit
-  stop := scopeOK_stopG
+  stop := fun s _ => scopeOK_stopG s
   andThen := scopeOK_andThen
   mapErrs := scopeOK_mapErrs
   inner := scopeOK_inner
